@@ -174,6 +174,10 @@ def check(run):
     run_cases(run, worker, cases)
     from props import C08_sym
     guarded(run, C08_sym.prove)
+    # the sweep poses the projected eigenproblems with the environments of the current state and hands back the state of the requested site (call by contract
+    # at the local eigensolver)
+    from props import C08_sweep_sym
+    guarded(run, C08_sweep_sym.prove)
     from props import C04_kernel
     guarded(run, C04_kernel.prove, only_updates=True)      # renormalised-basis update (single root and state-averaged) in kernel-stub mode
     from props import C08_tree
